@@ -67,6 +67,47 @@ def check(ctx):
     if not ok:
         ctx.violation("R-C05.2", f"linearity:{sorted(counts)}", f"in fix_switch_cases some path of the loop body appends the current child {sorted(counts)} times (exactly once expected): statements would be dropped or duplicated",
                       file=tx.rel, function="fix_switch_cases", line=loop.lineno)
+    # ---- R-C05.7: every label-like prefix is looked through by the switch regrouping ------------------------------------------
+    # The labeled-statement production nests what follows a prefix INSIDE the prefix node (`L: case 1: a();` is Label(L, Case(1, [a]))), and a body
+    # that starts with #pragma lines is wrapped in a Compound.  "Every statement ends up under the nearest preceding case/default label, consecutive
+    # labels kept as siblings" therefore needs the regrouping to find a Case / Default nested in the body slot of EVERY such wrapper class - not
+    # only inside another Case / Default.
+    ctx.rule("R-C05.7", "the switch regrouping looks through every statement wrapper the parser can put around a case / default label (other labels, the #pragma wrapper Compound), as it does for nested case labels")
+    from .. import wirecheck as WC7
+    cur7 = WC7.current()
+    STMT_PRODS = ("_parse_pragmacomp_or_statement", "_parse_statement")
+    wrappers = {}      # class -> (body field, production that builds it)
+    for meth in ("_parse_labeled_statement", "_parse_pragmacomp_or_statement"):
+        if meth not in cur7:
+            raise AnalysisError(f"anchor production {meth} vanished")
+        for lab, fa in cur7[meth]["records"]:
+            if lab.startswith("call:") or ">" in lab:
+                continue
+            for f_, vals in fa.items():
+                if any(sp + "#" in v for v in vals for sp in STMT_PRODS):
+                    wrappers[lab] = (f_, meth)
+    if not {"Label", "Case", "Default"} <= set(wrappers):
+        raise AnalysisError(f"statement wrappers built by the labeled-statement production not found (got {sorted(wrappers)})")
+    searched = set()
+    for fname in ("fix_switch_cases", "_extract_nested_case"):
+        fn = tx.function(fname)
+        for c in ast.walk(fn):
+            if isinstance(c, ast.Call) and isinstance(c.func, ast.Name) and c.func.id == "isinstance" and len(c.args) == 2:
+                classes = {n.attr for n in ast.walk(c.args[1]) if isinstance(n, ast.Attribute) and isinstance(n.value, ast.Name) and n.value.id == "c_ast"}
+                if not (classes & {"Case", "Default"}):
+                    continue
+                e = c.args[0]
+                while isinstance(e, ast.Subscript):
+                    e = e.value
+                if isinstance(e, ast.Attribute):
+                    searched.add(e.attr)
+    for cls, (f_, meth) in sorted(wrappers.items()):
+        ok = f_ in searched
+        ctx.oblige("R-C05.7", f"{cls}.{f_} is searched for a nested case / default label", ok, sample={"rule": "R-C05.7", "wrapper class": cls, "body field": f_, "built by": meth, "fields the regrouping searches": sorted(searched)})
+        if not ok:
+            what = "a plain label in front of a case label (`L: case 1: a(); b();`)" if cls == "Label" else "#pragma lines between a label and the case label that follows (`case 1:` / `#pragma p` / `case 2: a(); b();`)" if cls == "Compound" else f"a {cls} node"
+            ctx.violation("R-C05.7", f"switch-wrapper-not-searched:{cls}.{f_}", f"{meth} can nest a case / default label inside {cls}.{f_} ({what}), but fix_switch_cases / _extract_nested_case only look for nested labels in "
+                          f"{sorted(searched)}: the nested case is never promoted to a sibling, and the statements after it are appended under an EARLIER case (or left outside every case)", file=tx.rel, function="fix_switch_cases")
     # ---- R-C05.3 ---------------------------------------------------------------------
     px = S.module("c_parser")
     for m in ("_parse_block_item_list", "_parse_translation_unit", "_parse_struct_declaration_list", "_parse_declaration_list", "_parse_pppragma_directive_list"):
